@@ -171,4 +171,18 @@ def sortBy (P : Params) (a : Nat) (b : Bytes) (le : Bytes → Bytes → Bool) : 
 def bytesUsed (P : Params) (v : View) : Res Nat := sizeOf P v.len
 def bytesAllocated (P : Params) (v : View) : Res Nat := sizeOf P v.cap
 
+/-! ### length-prefix types with an alignment requirement
+
+    `PodLength` is a blanket trait: besides the align-1 Pod integers, the primitives `u8` (width 1,
+    align 1) and `u16` (width 2, align 2) satisfy its bounds.  `header_padding` — the first thing
+    `calculate_layout` and `size_of` do — rejects a prefix type whose own alignment is not 1 with
+    `InvalidArgument`, before looking at the buffer.  `alignL` is that alignment. -/
+
+def guardL {α} (alignL : Nat) (r : Res α) : Res α :=
+  if alignL ≠ 1 then .err .invalidArgument else r
+
+/-- the same for operations that also return the buffer: it is untouched -/
+def guardLB {α} (alignL : Nat) (b : Bytes) (r : Bytes × Res α) : Bytes × Res α :=
+  if alignL ≠ 1 then (b, .err .invalidArgument) else r
+
 end ListView
